@@ -414,3 +414,32 @@ theorem readFloat_rstrip (w : Str) : readFloat (rstrip w) = readFloat w := by un
 theorem readBoolInt_rstrip (w : Str) : readBoolInt (rstrip w) = readBoolInt w := by unfold readBoolInt; rw [readInt_rstrip]
 
 end Reamber.Osu
+
+namespace Reamber.Osu
+
+theorem tailOk_iff (f : Str) : TailOk f ↔ ('\n' ∉ f ∧ f.getLast?.map isWs ≠ some true) := by
+  unfold TailOk
+  constructor
+  · rintro ⟨h1, h2⟩
+    refine ⟨h1, ?_⟩
+    rcases List.eq_nil_or_concat f with rfl | ⟨t, a, rfl⟩
+    · simp
+    · have := h2 t a List.concat_eq_append
+      simp [this]
+  · rintro ⟨h1, h2⟩
+    refine ⟨h1, ?_⟩
+    intro t a hf
+    subst hf
+    simp at h2
+    simpa using h2
+
+instance (f : Str) : Decidable (TailOk f) := decidable_of_iff _ (tailOk_iff f).symm
+
+instance (k : Int) (o : Obj) : Decidable (ObjOk2 k o) := by
+  cases o <;> (unfold ObjOk2; infer_instance)
+
+instance (R : Render) (q : Rat) : Decidable (ReprOk R q) := by unfold ReprOk; infer_instance
+instance (R : Render) (b : Bpm) : Decidable (BpmOk2 R b) := by unfold BpmOk2; infer_instance
+instance (R : Render) (b : Sv) : Decidable (SvOk2 R b) := by unfold SvOk2; infer_instance
+
+end Reamber.Osu
